@@ -386,10 +386,10 @@ fn build_corpus() -> Corpus {
     let mut twice = hid_stream(3, Command::Cbor, 130, 9);
     twice.extend(hid_stream(3, Command::Ping, 61, 10));
     hid_streams.push(twice);
-    // 600 initialisation packets on pairwise different channels, each announcing 65535 bytes
+    // 1200 initialisation packets on pairwise different channels, each announcing 65535 bytes
     // and never continued: what the receiver retains must stay in proportion to what it was sent
     let mut many = Vec::new();
-    for ch in 0..600u32 {
+    for ch in 0..1200u32 {
         let mut p = vec![0x77u8; 64];
         p[..4].copy_from_slice(&(0x4000_0000 + ch).to_ne_bytes());
         p[4] = 0x90;
@@ -704,7 +704,7 @@ impl Family for C15Family {
             id: "C15",
             level: "fault_enumeration",
             rule: "link world: for every public decoder (19 receiving ends: 5 WebAuthn JSON types, 6 CTAP2 CBOR types, AuthenticatorData, Bytes, U2F request, COSE key converter, fingerprint, domain/RP-ID, origin+RP-ID, and the stateful CTAPHID ChannelHandler) valid in-flight messages are produced by the real encoders (a simulated ceremony, the real HID sender, serde of real request values). Systematic single-fault sweep per message: truncation at every offset, a flip of every bit of the first 256 bytes, extension, at every CBOR header of a length-bearing item a rewrite of the declared length to 2^16-1, 2^16, 2^32-1, 2^40, 2^63-1, JSON numbers rewritten to huge values, nesting 64-100000 deep, U2F P1/INS/length fields over their whole range, HID packets resized to every length 0-130 with BCNT/seq rewritten, dropped, duplicated, swapped, and a 301-packet continuation stream; then seeded multi-fault combinations. Each case runs in a crash-isolated worker with a counting allocator and a per-case watchdog. Non-trivial = every damaged case (the undamaged one is the control); distinct = distinct (decoder, damaged bytes).",
-            assumptions: &["bounds: a single allocation above 256 x input length + 2 MiB, peak live heap above 512 x input length + 4 MiB (serde's own cautious pre-allocation of at most 1 MiB per sequence is deliberately inside the bound), or more than 0.5 s + 20 us per input byte of CPU time for one case (measured per case on the decoding thread; a watchdog kills a worker after 10 s of CPU; honest decodes take microseconds to milliseconds) count as out of proportion", "the watchdog is the only measured (not computed) quantity in the whole simulator"],
+            assumptions: &["bounds: a single allocation above 256 x input length + 2 MiB, peak live heap above 512 x input length + 16 MiB (serde's own cautious pre-allocation of at most 1 MiB per sequence in progress - one per nesting level and per sibling field being filled - is deliberately inside the bound), or more than 0.5 s + 20 us per input byte of CPU time for one case (measured per case on the decoding thread; a watchdog kills a worker after 10 s of CPU; honest decodes take microseconds to milliseconds) count as out of proportion", "the watchdog is the only measured (not computed) quantity in the whole simulator"],
             real: &["serde Deserialize impls of all passkey-types WebAuthn/CTAP2 messages", "AuthenticatorData::from_slice", "Bytes::try_from(&str)", "u2f::Request::try_from", "public_key_der_from_cose_key", "valid_fingerprint", "public_suffix::effective_tld_plus_one", "RpIdVerifier::{is_valid_rp_id,assert_domain}", "hid::ChannelHandler::handle_packet", "the encoders that produced the corpus"],
             stubs: &["the link (fault injector)", "counting allocator", "watchdog", "worker isolation"],
             crash_isolated: true,
@@ -870,7 +870,7 @@ impl Family for C15Family {
         }
         if reading.max_request > 256 * input_len + (2 << 20) {
             fail(format!("C15/alloc:{}", l.decoder), format!("decoder {} made a single allocation request of {} bytes for a {input_len}-byte input", l.decoder, reading.max_request));
-        } else if reading.peak_live > 512 * input_len + (4 << 20) {
+        } else if reading.peak_live > 512 * input_len + (16 << 20) {
             fail(format!("C15/heap:{}", l.decoder), format!("decoder {} held {} bytes of heap for a {input_len}-byte input", l.decoder, reading.peak_live));
         }
         // processing time in proportion to the input: honest decodes take microseconds to a few
